@@ -34,9 +34,9 @@ MATCHERS = {
 }
 
 # how many spellings a tree of a family gets (0 = all that apply); (quick, thorough)
-PER_TREE = {"small": (0, 0), "cond": (0, 0), "mid": (1, 0), "let": (1, 4), "big": (0, 2)}
-N_HYP = {"quick": 1000, "thorough": 20000}
-N_RAND = {"quick": 500, "thorough": 8000}
+PER_TREE = {"small": (0, 0), "cond": (0, 0), "mid": (1, 4), "let": (1, 4), "big": (0, 2)}
+N_HYP = {"quick": 750, "thorough": 12000}
+N_RAND = {"quick": 250, "thorough": 4000}
 
 
 def _space(ctx, cfg=None):
@@ -71,6 +71,12 @@ def _items(ctx, space):
   return items, pairs, frags
 
 
+def _dollar_in_string(tree):
+  if tree[0] == "Const":
+    return tree[1][0] == "str" and 36 in tree[1][1]
+  return any(_dollar_in_string(t) for t in tree[1:] if isinstance(t, list))
+
+
 def _text(inp, key):
   s = inp[key]
   return s if len(s) <= 160 else s[:160] + "..."
@@ -103,38 +109,66 @@ def _split(failures):
   return viol
 
 
+def _selftest(ctx, case_file):
+  """Binding self-test: corrupted recordings must be rejected by the trace specification, each by its clause."""
+  def wrong_cell(case):
+    case["out"]["s1"]["F"] = [["other", 0] for _ in case["out"]["s1"]["F"]]
+    return "C19.meaning"
+
+  def leaked(case):
+    case["out"]["s3"]["K"] = case["out"]["s3"]["K"][:-1] + [["int", 99]]
+    return "C19.others"
+
+  def error_outside(case):
+    case["out"]["s2"]["G"] = [["err", 0]] + case["out"]["s2"]["G"][1:]
+    return "C19.loc"
+
+  def half_applied(case):
+    case["out"]["x_ok"], case["out"]["same"] = False, False
+    return "C19.ok"
+  # a recorded case whose own verdict is clean and whose F is judged
+  base = next((c for c in json.load(open(case_file))
+               if c["out"]["f_ok"] and c["out"]["x_ok"] and c["out"]["add_ok"] and c["inp"]["spell"] != "cr"
+               and c["inp"]["xnl"] != "cr" and all(v[0] in ("int", "str", "bool", "err") for v in c["out"]["py"])), None)
+  if base is None:
+    raise tlc.MachineryError("self-test: no suitable recorded case in %s" % case_file)
+  muts = (wrong_cell, leaked, error_outside, half_applied)
+  bad, want = [], []
+  for m in muts:
+    c = json.loads(json.dumps(base))
+    want.append(m(c))
+    bad.append(c)
+  p = os.path.join(ctx.workdir, "selftest-C19.json")
+  json.dump([base] + bad, open(p, "w"))
+  verdicts, _ = tlc.validate_shards("Trace_FormulaText", [p], ctx.workdir, parallel=1)
+  got = {v["i"]: set(v["c"]) for v in verdicts}
+  if 1 in got:
+    raise tlc.MachineryError("self-test: the uncorrupted case is rejected: %s" % sorted(got[1]))
+  for k, (m, w) in enumerate(zip(muts, want)):
+    if w not in got.get(k + 2, set()):
+      raise tlc.MachineryError("self-test: corrupted case (%s) was not rejected by %s: %s"
+                               % (m.__name__, w, sorted(got.get(k + 2, set()))))
+
+
 def run(ctx):
   space, model, doc, cfg = _space(ctx)
   items, pairs, frags = _items(ctx, space)
   ctx.log("TLC enumerated %d trees -> %d (tree, spelling) pairs and %d fragments (%d distinct states) in %.1fs"
           % (len(space["items"]), len(pairs), len(frags), model["distinct"], model["wall"]))
   extra = {"doc": doc}
-  files = fnspec.run_cases("fn_formulatext.py", items, ctx.workdir, extra=extra, nshards=16 if ctx.quick else 32)
+  files = fnspec.run_cases("fn_formulatext.py", items, ctx.workdir, extra=extra, nshards=8 if ctx.quick else 32)
   # C->S: Hypothesis text for X, deeper random trees for F
   small = [p for p in pairs if len(json.dumps(p[0])) < 120][:40]
   per = 250
   more = [{"hyp": ctx.seed * 1000003 + k, "n": per, "trees": [list(p) for p in small]}
           for k in range(N_HYP[ctx.tier] // per)]
   more += [{"rand": ctx.seed * 7919 + 17 * k + 1, "n": per} for k in range(N_RAND[ctx.tier] // per)]
-  rfiles = fnspec.run_cases("fn_formulatext.py", more, ctx.workdir, extra=extra, tag="more", nshards=len(more))
+  rfiles = fnspec.run_cases("fn_formulatext.py", more, ctx.workdir, extra=extra, tag="more",
+                            nshards=2 if ctx.quick else 16)
   failures, n, wall = fnspec.judge("Trace_FormulaText", files + rfiles, ctx.workdir)
   ctx.log("TLC judged %d recorded runs in %.1fs" % (n, wall))
 
-  # binding self-tests: corrupted recordings must be rejected by the trace specification
-  def wrong_cell(case):
-    case["out"]["s1"]["F"] = [["other", 0] for _ in case["out"]["s1"]["F"]]
-    return case
-
-  def leaked(case):
-    case["out"]["s3"]["K"] = case["out"]["s3"]["K"][:-1] + [["int", 99]]
-    return case
-
-  def error_outside(case):
-    case["out"]["s2"]["G"] = [["err", 0]] + case["out"]["s2"]["G"][1:]
-    return case
-  for mut in (wrong_cell, leaked, error_outside):
-    if not fnspec.mutation_selftest("Trace_FormulaText", files[0], mut, ctx.workdir):
-      raise tlc.MachineryError("self-test: corrupted case (%s) was accepted by Trace_FormulaText" % mut.__name__)
+  _selftest(ctx, files[0])
 
   viol = _split(failures)
   stats = {"enumerated_cases": 0, "hypothesis_texts": 0, "random_trees": 0, "f_judged_rows": 0, "f_all_rows_undefined": 0,
@@ -155,7 +189,7 @@ def run(ctx):
       stats["f_judged_rows"] += judged
       stats["f_all_rows_undefined"] += 0 if judged else 1
       stats["f_error_values"] += sum(1 for v in out["py"] if v[0] == "err")
-      stats["dollar_in_string"] += 1 if re.search(r"['\"][^'\"]*\$", inp["ftext"]) else 0
+      stats["dollar_in_string"] += 1 if _dollar_in_string(inp["tree"]) else 0
       if "Timeout" in (out["x_exc"], out["f_exc"]):
         stats["timeouts"] += 1
       if out["x_ok"]:
